@@ -146,7 +146,33 @@ func (w *c18World) usesLegacy(p *c18Producer) bool {
 			return true
 		}
 	}
-	return false
+	// the templates may reach the sinks through tables, struct fields or parameters of helpers: does any function
+	// the producer can (statically) reach mention one of the template variables that have a legacy variant?
+	if w.legacyUse == nil {
+		w.legacyUse = map[*FuncInfo]bool{}
+	}
+	if r, ok := w.legacyUse[p.fi]; ok {
+		return r
+	}
+	found := false
+	for n := range staticReach(w.p, p.fi) {
+		f := w.p.Func(n)
+		if f == nil || f.Decl.Body == nil || f.Pkg.PkgPath != p.fi.Pkg.PkgPath {
+			continue
+		}
+		ast.Inspect(f.Decl.Body, func(nd ast.Node) bool {
+			if id, ok := nd.(*ast.Ident); ok {
+				if o := f.Pkg.TypesInfo.Uses[id]; o != nil {
+					if _, isLegacy := w.legacy[o]; isLegacy {
+						found = true
+					}
+				}
+			}
+			return !found
+		})
+	}
+	w.legacyUse[p.fi] = found
+	return found
 }
 
 func (w *c18World) setup() string {
@@ -209,9 +235,23 @@ func (w *c18World) setup() string {
 	// legacy variants of the package-level template variables
 	se := newStrEval(w.p, w.pk)
 	w.legacy = map[types.Object]string{}
+	w.legacyOnly = map[string]bool{}
 	for obj, vs := range se.varVariants {
 		if len(vs) >= 1 {
 			w.legacy[obj] = vs[len(vs)-1]
+			isBase := false
+			if v, ok := obj.(*types.Var); ok {
+				if base, ok := se.varInit(v); ok {
+					for _, b := range base {
+						if b == vs[len(vs)-1] {
+							isBase = true
+						}
+					}
+				}
+			}
+			if !isBase {
+				w.legacyOnly[vs[len(vs)-1]] = true
+			}
 		}
 	}
 	return ""
@@ -1069,6 +1109,11 @@ func (w *c18World) lengthGuards(fi *FuncInfo) {
 				if impliesLin(facts, Term{}, tm.t, lf.k) { // 0 - v <= k  <=>  v + k >= 0
 					return true
 				}
+				// v - 1 >= 0 from v != 0 (guard in force: `if v == 0 { break }`) and v >= 0 (v is itself a
+				// non-negative variable: all its definitions are constants >= 0 / non-negative forms)
+				if lf.k == -1 && vo != o && c18ImpliesNonZero(facts, tm.t) && nonNeg(vo) {
+					return true
+				}
 			}
 		}
 		return false
@@ -1099,7 +1144,10 @@ func (w *c18World) lengthGuards(fi *FuncInfo) {
 					}
 					found = true
 					if len(t.Rhs) != len(t.Lhs) {
-						ok = false
+						// a, n, ok := helper(...): n >= 0 when every return of the helper gives a constant >= 0 there
+						if min, known := c18CallResultMin(c, info, t, i); !known || min < 0 || (t.Tok != token.ASSIGN && t.Tok != token.DEFINE) {
+							ok = false
+						}
 						continue
 					}
 					switch t.Tok {
@@ -1381,11 +1429,28 @@ func (w *c18World) lengthGuards(fi *FuncInfo) {
 		// lower bound
 		var t Term
 		k := lf.k
-		lowOK := lf.ok && k >= 0 && len(lf.terms) <= 1
+		facts := c18Facts(g, h.Loc, guards)
+		lowOK := lf.ok && len(lf.terms) <= 1
+		if len(lf.terms) == 0 {
+			lowOK = lowOK && k >= 0
+		}
 		for _, tm := range lf.terms {
 			t = tm.t
+			if !lowOK || tm.coef != 1 {
+				lowOK = false
+				break
+			}
 			id, isId := unparen(tm.e).(*ast.Ident)
-			lowOK = lowOK && tm.coef == 1 && isId && nonNeg(info.ObjectOf(id))
+			switch {
+			case k >= 0 && isId && nonNeg(info.ObjectOf(id)):
+				// a non-negative variable plus a constant >= 0
+			case k >= 0 && strings.HasPrefix(tm.t.ID, "len("):
+				// a length plus a constant >= 0
+			case impliesLin(facts, Term{}, tm.t, k):
+				// 0 - t <= k: the guards in force give t + k >= 0 (`len(x) - 3` under `len(x) >= 5`)
+			default:
+				lowOK = false
+			}
 		}
 		if !lowOK {
 			c.undecided("C18.e", key, h.Node.Pos(), "cannot show the index %s is non-negative", types.ExprString(idx))
@@ -1395,13 +1460,14 @@ func (w *c18World) lengthGuards(fi *FuncInfo) {
 		if isSlice {
 			need = k
 		}
-		facts := c18Facts(g, h.Loc, guards)
 		xt := termOf(info, X)
 		lx := Term{ID: "len(" + xt.ID + ")"}
 		why := ""
 		switch {
 		case need <= 0 && t.ID == "":
 			why = "constant bound"
+		case need <= 0 && t.ID == lx.ID:
+			why = "index counted back from len(" + xt.Disp + ")"
 		case impliesLin(facts, t, lx, -need):
 			why = "dominating guard on len(" + xt.Disp + ")"
 		}
@@ -1509,7 +1575,29 @@ func c18Lin(info *types.Info, e ast.Expr) c18LinForm {
 // (`len(params)-i < 3`, `len(params[i:]) < 3`, `i+3 > len(params)`), which condAtoms (one term per side) does not see.
 func c18LinAtoms(info *types.Info, c *Cond, pol bool) []Atom {
 	if c.Alts != nil {
-		return nil
+		// `case 5, 6:` of a tagged switch: the tag lies between the least and the greatest alternative
+		if c.Tag == nil || !pol || !isIntegerExpr(info, c.Tag) {
+			return nil
+		}
+		var minE, maxE ast.Expr
+		var minV, maxV int64
+		for _, a := range c.Alts {
+			v, isConst := constInt(info, a)
+			if !isConst {
+				return nil
+			}
+			if minE == nil || v < minV {
+				minE, minV = a, v
+			}
+			if maxE == nil || v > maxV {
+				maxE, maxV = a, v
+			}
+		}
+		if minE == nil {
+			return nil
+		}
+		out := append(c18CmpLin(info, c.Tag, token.GEQ, minE, true), c18CmpLin(info, c.Tag, token.LEQ, maxE, true)...)
+		return out
 	}
 	if c.Tag != nil {
 		return c18CmpLin(info, c.Tag, token.EQL, c.Expr, pol)
@@ -1616,4 +1704,64 @@ func c18Prof() func() {
 		return func() { pprof.StopCPUProfile(); f.Close() }
 	}
 	return func() {}
+}
+
+// c18ImpliesNonZero: do the atoms in force contain t != 0 ?
+func c18ImpliesNonZero(known []Atom, t Term) bool {
+	if t.ID == "" {
+		return false
+	}
+	for _, f := range known {
+		if f.Kind == "ne" && f.K == 0 && ((f.A.ID == t.ID && f.B.ID == "") || (f.B.ID == t.ID && f.A.ID == "")) {
+			return true
+		}
+	}
+	return false
+}
+
+// c18CallResultMin: stmt is `x0, x1, .. = f(..)` with f a repository function whose every return statement lists its
+// results and gives an integer constant for result idx; returns the least of these constants.
+func c18CallResultMin(c *Ctx, info *types.Info, stmt *ast.AssignStmt, idx int) (int64, bool) {
+	if len(stmt.Rhs) != 1 {
+		return 0, false
+	}
+	call, ok := unparen(stmt.Rhs[0]).(*ast.CallExpr)
+	if !ok {
+		return 0, false
+	}
+	fn := calleeOf(info, call)
+	if fn == nil {
+		return 0, false
+	}
+	cf := c.P.FuncOfObj(fn)
+	sig, _ := fn.Type().(*types.Signature)
+	if cf == nil || cf.Decl.Body == nil || sig == nil || idx >= sig.Results().Len() || sig.Results().Len() != len(stmt.Lhs) {
+		return 0, false
+	}
+	var min int64
+	n, good := 0, true
+	inspectNoLit(cf.Decl.Body, func(m ast.Node) bool {
+		rs, ok := m.(*ast.ReturnStmt)
+		if !ok {
+			return true
+		}
+		if len(rs.Results) != sig.Results().Len() {
+			good = false // bare return of named results, or a forwarded call
+			return true
+		}
+		cv, isConst := constInt(cf.Pkg.TypesInfo, rs.Results[idx])
+		if !isConst {
+			good = false
+			return true
+		}
+		if n == 0 || cv < min {
+			min = cv
+		}
+		n++
+		return true
+	})
+	if !good || n == 0 {
+		return 0, false
+	}
+	return min, true
 }
